@@ -523,10 +523,11 @@ class WcsSampler(object):
             hi2 = min(e2 + 1, coarse_lat.shape[1] - 1)
 
             # Now figure out how many samples to compute in our refined grid.
-            # We want to sample essentially every pixel.
+            # We want to sample essentially every pixel, and always both ends
+            # of the window: `np.linspace(lo, hi, 1)` would yield only `lo`.
 
-            n1 = max(int(np.ceil(coarse_idx1[hi1] - coarse_idx1[lo1])), 1)
-            n2 = max(int(np.ceil(coarse_idx2[hi2] - coarse_idx2[lo2])), 1)
+            n1 = max(int(np.ceil(coarse_idx1[hi1] - coarse_idx1[lo1])), 1) + 1
+            n2 = max(int(np.ceil(coarse_idx2[hi2] - coarse_idx2[lo2])), 1) + 1
 
             # Generate that grid.
 
@@ -542,9 +543,12 @@ class WcsSampler(object):
                 refined_pix.reshape((-1, 2)), 1
             ).reshape((n1, n2, 2))
 
-            # Find the *real* extreme value and convert to radians
+            # Find the *real* extreme value and convert to radians. The coarse
+            # extreme takes part too, since the refined grid need not hit it.
 
-            refined_grid = refined_world[..., 1].flatten()
+            refined_grid = np.append(
+                refined_world[..., 1].flatten(), coarse_lat[e1, e2]
+            )
             return refined_grid[arg_op(refined_grid)] * D2R
 
         lat_min = refine_lat(np.argmin)
@@ -592,7 +596,7 @@ class WcsSampler(object):
                 # "top" edge (thinking of array as [lon, lat] ~ [x, y])
                 lo = max(e - 1, 0)
                 hi = min(e + 1, nm)
-                n = max(int(np.ceil(coarse_idx1[hi] - coarse_idx1[lo])), 1)
+                n = max(int(np.ceil(coarse_idx1[hi] - coarse_idx1[lo])), 1) + 1
                 refined_idx1 = np.linspace(coarse_idx1[lo], coarse_idx1[hi], n)
                 refined_idx2 = np.zeros(n) + coarse_idx2[0]
             elif e < 2 * nm:
@@ -600,7 +604,7 @@ class WcsSampler(object):
                 rel = e - nm
                 lo = max(rel - 1, 0)
                 hi = min(rel + 1, nm)
-                n = max(int(np.ceil(coarse_idx2[hi] - coarse_idx2[lo])), 1)
+                n = max(int(np.ceil(coarse_idx2[hi] - coarse_idx2[lo])), 1) + 1
                 refined_idx1 = np.zeros(n) + coarse_idx1[nm]
                 refined_idx2 = np.linspace(coarse_idx2[lo], coarse_idx2[hi], n)
             elif e < 3 * nm:
@@ -608,7 +612,7 @@ class WcsSampler(object):
                 rel = 3 * nm - (1 + e)
                 lo = max(rel - 1, 0)
                 hi = min(rel + 1, nm)
-                n = max(int(np.ceil(coarse_idx1[hi] - coarse_idx1[lo])), 1)
+                n = max(int(np.ceil(coarse_idx1[hi] - coarse_idx1[lo])), 1) + 1
                 refined_idx1 = np.linspace(coarse_idx1[lo], coarse_idx1[hi], n)
                 refined_idx2 = np.zeros(n) + coarse_idx2[nm]
             else:
@@ -617,7 +621,7 @@ class WcsSampler(object):
                 rel = 4 * nm - e
                 lo = max(rel - 1, 0)
                 hi = min(rel + 1, nm)
-                n = max(int(np.ceil(coarse_idx2[hi] - coarse_idx2[lo])), 1)
+                n = max(int(np.ceil(coarse_idx2[hi] - coarse_idx2[lo])), 1) + 1
                 refined_idx1 = np.zeros(n) + coarse_idx1[0]
                 refined_idx2 = np.linspace(coarse_idx2[lo], coarse_idx2[hi], n)
 
@@ -634,6 +638,9 @@ class WcsSampler(object):
             # re-unwrap here.
 
             refined_lon += 360 * deltas[e]
+
+            # As above, do not lose the coarse extreme itself.
+            refined_lon = np.append(refined_lon, coarse_edge_lons[e])
 
             # Convert to radians and we're done.
             return refined_lon[arg_op(refined_lon)] * D2R
